@@ -19,10 +19,11 @@ import (
 	"time"
 
 	"github.com/0xReLogic/Helios/internal/config"
+	"github.com/0xReLogic/Helios/internal/logging"
 )
 
 func init() {
-	register(&Scenario{Name: "sysws", Props: []string{"C20"}, Kind: "system", Run: runSysWS})
+	register(&Scenario{Name: "sysws", Props: []string{"C20", "C16"}, Kind: "system", Run: runSysWS})
 }
 
 type wsEnd struct {
@@ -80,8 +81,12 @@ func runSysWS(x *X) {
 		parts = append(parts[:k], parts[k+1:]...)
 	}
 	var names []string
+	hasReqIDPlugin := false
 	for _, p := range chain {
 		names = append(names, p.Name)
+		if p.Name == "request-id" {
+			hasReqIDPlugin = true
+		}
 	}
 	o := sysOpts{strategy: strategies[c.Intn(5, "strategy")], nBackends: 1 + c.Intn(2, "nbackends"), plugins: chain, wsPool: c.Intn(2, "wspool") == 1}
 	o.timeouts = config.TimeoutConfig{Read: 5, Write: 5, Idle: 30, BackendRead: 5, Handler: 1 + c.Intn(5, "handler-timeout")}
@@ -90,6 +95,11 @@ func runSysWS(x *X) {
 	// quiet periods inside the session: longer than every configured timeout
 	idles := c.Intn(3, "idles")
 	o.logging.RequestID.Enabled = c.Intn(2, "rid") == 1
+	o.logging.Trace.Enabled = c.Intn(2, "tid") == 1
+	suppliedID := ""
+	if c.Intn(3, "client-id") == 0 {
+		suppliedID = "ws-client-id-42"
+	}
 	env, err := newSysEnv(x, o)
 	if err != nil {
 		panic(err)
@@ -99,7 +109,11 @@ func runSysWS(x *X) {
 	x.Logf("sysws %s", x.Sample["config"])
 	client, backend := &wsEnd{}, &wsEnd{}
 	// the scripted backends answer an Upgrade request themselves
+	var backendHdr, clientHdr http.Header
 	wsBackendHook = func(conn net.Conn, br *bufio.Reader, req *http.Request) {
+		backend.mu.Lock()
+		backendHdr = req.Header.Clone()
+		backend.mu.Unlock()
 		io.WriteString(conn, "HTTP/1.1 101 Switching Protocols\r\nUpgrade: websocket\r\nConnection: Upgrade\r\nSec-WebSocket-Accept: s3pPLMBiTxaQ9kYGzzhZRbK+xOo=\r\n\r\n")
 		backend.mu.Lock()
 		backend.conn, backend.ready = conn, true
@@ -108,13 +122,17 @@ func runSysWS(x *X) {
 	}
 	defer func() { wsBackendHook = nil }()
 	var upgradeErr string
+	idLine := ""
+	if suppliedID != "" {
+		idLine = logging.RequestHeaderName(env.cfg.Logging) + ": " + suppliedID + "\r\n" + logging.TraceHeaderName(env.cfg.Logging) + ": " + suppliedID + "-t\r\n"
+	}
 	go func() {
 		conn, err := env.net.Dial("wsclient", "198.51.100.60:42000", heliosAddr, 0, nil)
 		if err != nil {
 			upgradeErr = err.Error()
 			return
 		}
-		io.WriteString(conn, "GET /ws/chat?room=1 HTTP/1.1\r\nHost: helios.test\r\nUpgrade: websocket\r\nConnection: "+connHdr+"\r\nSec-WebSocket-Key: dGhlIHNhbXBsZSBub25jZQ==\r\nSec-WebSocket-Version: 13\r\nX-API-Key: k\r\nAccept-Encoding: gzip\r\n\r\n")
+		io.WriteString(conn, "GET /ws/chat?room=1 HTTP/1.1\r\nHost: helios.test\r\nUpgrade: websocket\r\nConnection: "+connHdr+"\r\nSec-WebSocket-Key: dGhlIHNhbXBsZSBub25jZQ==\r\nSec-WebSocket-Version: 13\r\nX-API-Key: k\r\nAccept-Encoding: gzip\r\n"+idLine+"\r\n")
 		br := bufio.NewReader(conn)
 		resp, err := http.ReadResponse(br, &http.Request{Method: "GET"})
 		if err != nil {
@@ -128,6 +146,7 @@ func runSysWS(x *X) {
 			return
 		}
 		client.mu.Lock()
+		clientHdr = resp.Header.Clone()
 		client.conn, client.ready = conn, true
 		client.mu.Unlock()
 		client.readLoop(x, br)
@@ -255,6 +274,38 @@ func runSysWS(x *X) {
 	backend.mu.Lock()
 	defer client.mu.Unlock()
 	defer backend.mu.Unlock()
+	// C16 on the 101 response: it is a response like any other
+	for _, f := range []struct {
+		kind    string
+		enabled bool
+		name    string
+		sent    string
+	}{{"request-id", o.logging.RequestID.Enabled, logging.RequestHeaderName(env.cfg.Logging), suppliedID}, {"trace-id", o.logging.Trace.Enabled, logging.TraceHeaderName(env.cfg.Logging), suppliedID}} {
+		if f.kind == "request-id" && hasReqIDPlugin {
+			continue // the example request-id plugin overwrites X-Request-ID by design: outside C16
+		}
+		sent := f.sent
+		if sent != "" && f.kind == "trace-id" {
+			sent += "-t"
+		}
+		atClient, atBackend := clientHdr.Get(f.name), backendHdr.Get(f.name)
+		if !f.enabled {
+			if atBackend != sent || (sent == "" && atClient != "") {
+				x.Violate("C16", "C16/disabled-but-touched{"+f.kind+",upgrade}", "%s propagation is disabled but on the Upgrade exchange the client sent %q, the backend saw %q and the 101 carried %q", f.kind, sent, atBackend, atClient)
+			}
+			continue
+		}
+		if atClient == "" {
+			x.Violate("C16", "C16/missing-on-response{"+f.kind+",upgrade}", "the 101 Switching Protocols response carries no %s header (backend saw %q)", f.name, atBackend)
+			continue
+		}
+		if atClient != atBackend {
+			x.Violate("C16", "C16/backend-client-mismatch{"+f.kind+",upgrade}", "Upgrade exchange: backend saw %s %q, the 101 carried %q", f.name, atBackend, atClient)
+		}
+		if sent != "" && atClient != sent {
+			x.Violate("C16", "C16/client-id-altered{"+f.kind+",upgrade}", "Upgrade exchange: client supplied %s %q, the 101 carried %q", f.name, sent, atClient)
+		}
+	}
 	if !closed {
 		x.Violate("C20", "C20/tunnel-stuck", "the tunnel never became ready for traffic")
 		return
